@@ -140,6 +140,7 @@ func init() {
 		},
 	}
 	installTreeModels()
+	installWidthModels()
 }
 
 // stubsOff lists ergo-level stubs a harness has switched off (e.g. byte-mode shortID).
@@ -1105,6 +1106,11 @@ func mBuilderReset(ex *Exec, c *callCtx) Value {
 func mRepeat(ex *Exec, c *callCtx) Value {
 	s, sok := litOf(c.args[0])
 	n := c.args[1].(IntV)
+	// strings.Repeat panics on a negative count
+	ex.addPanic(c.fr, BVCmp("bvslt", n.T, BVC(0, 64)), "negative-repeat-count", c.pos)
+	if widthMode && sok && !n.T.IsConst() {
+		return StrV{T: UF("repeat", SInt, IntC(Lits.Code(s)), n.T)}
+	}
 	if sok && n.T.IsConst() {
 		return StrLit(strings.Repeat(s, int(n.T.SVal())))
 	}
